@@ -96,7 +96,7 @@ def sd2(F, R):
     # crc7 ends with the end bit: checked by CR1 (C19)
 
 
-@rule("SD3", ["C14"], floor=3,
+@rule("SD3", ["C14", "C12", "C13"], floor=4,
       doc="card_command sends the frame only after wait_not_busy succeeded, except for CMD0 and CMD12")
 def sd3(F, R):
     fn = F.fn(SD + "::card_command")
@@ -115,6 +115,20 @@ def sd3(F, R):
         rs = fn.reach([0], cut_edges=cut + waited)
         if any(b in rs for b, t in wr):
             bad.append(c)
+    # the R1 response is the first byte with bit 7 clear after the frame: no byte is thrown away in between, except the one
+    # stuff byte that follows CMD12 (a card may answer with N_CR = 0, i.e. in the very first byte)
+    loops = fn.loops()
+    in_loop = set()
+    for (h, body, backs) in loops:
+        in_loop |= set(body)
+    rbs = [b for b, t in fn.calls() if call_matches(t, ("SdCardInner::read_byte",)) and b not in in_loop and wr and b in fn.reach_after(wr[0][0])]
+    polls = [b for b, t in fn.calls() if call_matches(t, ("SdCardInner::read_byte",)) and b in in_loop]
+    skipped = {}
+    for c in consts:
+        rs = fn.reach([0], cut_edges=specialise_on(fn, lambda q: q[:2] == ("arg", 2), c))
+        skipped[c] = len([b for b in rbs if b in rs])
+    wrong = {c: n for c, n in skipped.items() if n != (1 if c == 12 else 0)}
+    R.require(bool(polls) and not wrong, fn, "response-first-byte", "card_command discards a byte between the frame and the response poll for command index %s: exactly one stuff byte is skipped, after CMD12 only - a card answering at once (N_CR = 0) loses its R1 and the command times out" % sorted(wrong), fn.loc(rbs[0]) if rbs else fn.loc(0))
     R.require(not bad, fn, "busy-guard", "a command frame can be sent without waiting for not-busy (other than CMD0/CMD12): command index %s" % bad, fn.loc(wr[0][0]) if wr else fn.loc(0),
               okdetail="decided for the command indices %s" % consts)
 
@@ -214,7 +228,7 @@ def _sd_events(F):
     return classify
 
 
-@rule("SD6", ["C12", "C14"], floor=4,
+@rule("SD6", ["C12", "C14"], floor=10,
       doc="framing language: success paths of SdCardInner::read are CMD17 read_data | CMD18 read_data* CMD12; of write are CMD24 write_data(0xFE) wait CMD13 read_byte | ACMD23(n) wait CMD25 (wait write_data(0xFC))* wait write_byte(0xFD); single vs multi chosen by blocks.len() == 1; buffers are the caller's blocks in order")
 def sd6(F, R):
     fn = F.fn(SD + "::read")
@@ -265,6 +279,21 @@ def sd6(F, R):
         R.bad(fn2, "write-language:" + msg[:50], msg, fn2.loc(b), trace=trace[-10:])
     if not viol:
         R.ok(fn2, "write-language", "all success paths in the single/multi block write language (%d states)" % n)
+    # on *every* path (also failing ones) what continues a transfer is sent only after the command that opened it was
+    # accepted: CMD12 / data tokens / the stop token into a card that never entered the transfer state are not a legal conversation
+    def accepted(cmds):
+        return g_try_ok("SdCardInner::card_command", lambda a: len(a) > 1 and cmd_const(strip_refs(a[1]))[0] in cmds)
+    for f, openers, what in ((fn, ("CMD18",), "stop:CMD12"), (fn, ("CMD17", "CMD18"), "read_data"), (fn2, ("CMD24", "CMD25"), "write_data"), (fn2, ("CMD25",), "stop-token")):
+        for b, t in f.calls():
+            is_dep = False
+            if what == "stop:CMD12":
+                is_dep = bool(call_matches(t, ("SdCardInner::card_command",))) and cmd_const(f.term_of_operand(t["args"][1], b))[0] == "CMD12"
+            elif what in ("read_data", "write_data"):
+                is_dep = bool(call_matches(t, ("SdCardInner::" + what,)))
+            else:
+                is_dep = bool(call_matches(t, ("SdCardInner::write_byte",))) and cmd_const(f.term_of_operand(t["args"][1], b))[0] == "STOP_TRAN_TOKEN"
+            if is_dep:
+                R.require(guarded(f, b, accepted(openers))[0], f, "after-opener:" + what, "%s can be put on the bus although %s was not accepted (e.g. its busy wait timed out): the card is not in the transfer state this belongs to" % (what, "/".join(openers)), f.loc(b))
     # single vs multi selection and buffers
     for f, single, multi in ((fn, "CMD17", "CMD18"), (fn2, "CMD24", "CMD25")):
         for b, t in f.calls():
@@ -435,19 +464,27 @@ def be16_source(t):
     return None
 
 
-def from_call(fn, t, name):
-    """t is the (unwrapped) result of a call of `name`: directly, or a local every definition of which is one"""
+def from_call(fn, t, name, depth=0):
+    """t IS the (unwrapped) result of a call of `name` - `name(..)?`, its Ok payload, or a local every definition of which
+    is one; a masked / shifted / otherwise computed value is not (a test of `r1 & !IDLE` is not a test of r1)"""
     t = strip_refs(t)
-    is_call = lambda q: q[0] == "call" and q[1] and path_matches(q[1], name)
-    if has_sub(t, is_call):
-        return True
+    if depth > 6:
+        return False
+    if t[0] == "place" and tuple(t[2]) in (("as:Continue", "0"), ("as:Ok", "0")):
+        return from_call(fn, t[1], name, depth + 1)
+    if t[0] == "call" and t[1]:
+        if path_matches(t[1], name):
+            return True
+        if t[1].endswith(("Try::branch", "::map_err", "Result::unwrap", "Result::expect")) and t[2]:
+            return from_call(fn, t[2][0], name, depth + 1)
+        return False
     if t[0] == "var":
         ds = var_def_terms(fn, t[1])
-        return bool(ds) and all(has_sub(d, is_call) for d in ds)
+        return bool(ds) and all(from_call(fn, d, name, depth + 1) for d in ds)
     return False
 
 
-@rule("SD9", ["C13", "C14"], floor=4,
+@rule("SD9", ["C13", "C14", "C12"], floor=5,
       doc="read_data returns Ok only if the first non-0xFF byte was DATA_START_BLOCK and (CRC off or the received big-endian CRC equals crc16 of the received buffer); the buffer and then two CRC bytes are always transferred")
 def sd9(F, R):
     fn = F.fn(SD + "::read_data")
@@ -483,6 +520,14 @@ def sd9(F, R):
             ok_seq = ok_seq and r2[0] == "var" and fn.locals[r2[1]]["ty"] == "[u8; 2]"
             ok_seq = ok_seq and guarded(fn, b, g_try_ok("SdCardInner::transfer_bytes"))[0]
         R.require(ok_seq, fn, "payload-then-crc", "read_data must transfer the payload into the caller's buffer and then exactly two CRC bytes on every Ok path (in both CRC modes)", fn.loc(b, i))
+    # CRC mode decides whether the trailer is compared at all: with use_crc == false no CrcError can be returned (the option
+    # exists for cards that send junk there), with use_crc == true it can
+    from .specialise import specialise_on
+    is_opt = lambda q: q[0] == "place" and q[2] and q[2][-1] == "use_crc"
+    crc_errs = [x for x in err_returns(fn, adt="Error") if x[2] == "CrcError"]
+    off = fn.reach([0], cut_edges=specialise_on(fn, is_opt, 0))
+    on = fn.reach([0], cut_edges=specialise_on(fn, is_opt, 1))
+    R.require(bool(crc_errs) and not any(x[0] in off for x in crc_errs) and any(x[0] in on for x in crc_errs) and any(x[0] in off for x in oks), fn, "crc-only-when-enabled", "read_data must compare the CRC trailer exactly when AcquireOpts::use_crc is set: with CRC off a block whose trailer is junk is still good data", fn.loc(0))
     # the token wait takes the FIRST non-0xFF byte: only an idle byte (0xFF) may keep the loop going
     tl = [(h, body, backs) for (h, body, backs) in fn.loops() if any(fn.term(x)["k"] == "Call" and call_matches(fn.term(x), ("SdCardInner::read_byte",)) for x in body)]
     R.require(len(tl) == 1, fn, "token-loop", "expected one token wait loop in read_data", fn.loc(0))
